@@ -104,4 +104,35 @@ def WFL (cfg : Cfg) : List Val → Prop
   | x :: xs => WF cfg x ∧ WFL cfg xs
 end
 
+mutual
+/-- the value with every cache cell emptied (metadata included) -/
+def eraseCache : Val → Val
+  | .list h md xs => .list { h with hc := 0 } (eraseCacheO md) (eraseCacheL xs)
+  | .vec h md xs => .vec { h with hc := 0 } (eraseCacheO md) (eraseCacheL xs)
+  | .set h md xs => .set { h with hc := 0 } (eraseCacheO md) (eraseCacheL xs)
+  | .map h md ks vs => .map { h with hc := 0 } (eraseCacheO md) (eraseCacheL ks) (eraseCacheL vs)
+  | .tagged h md t v => .tagged { h with hc := 0 } (eraseCacheO md) t (eraseCache v)
+  | .sym h md ns nm => .sym { h with hc := 0 } (eraseCacheO md) ns nm
+  | v => v.setHdr { v.hdr with hc := 0 }
+def eraseCacheL : List Val → List Val
+  | [] => []
+  | x :: xs => eraseCache x :: eraseCacheL xs
+def eraseCacheO : Option Val → Option Val
+  | none => none
+  | some m => some (eraseCache m)
+end
+
+mutual
+/-- every string in the value is decodable with the core escape set (or has no escapes) -/
+def coreStrings : Val → Bool
+  | .str _ d e => (stringContent Cfg.core d e).1
+  | .list _ _ xs | .vec _ _ xs | .set _ _ xs => coreStringsL xs
+  | .map _ _ ks vs => coreStringsL ks && coreStringsL vs
+  | .tagged _ _ _ v => coreStrings v
+  | _ => true
+def coreStringsL : List Val → Bool
+  | [] => true
+  | x :: xs => coreStrings x && coreStringsL xs
+end
+
 end Edn.Spec
